@@ -10,8 +10,13 @@ lines = ["# Mutation / seeded-change self-test results", "",
          "| change | what it does | check | fired | first mechanism reported | s |", "|---|---|---|---|---|---|"]
 tot = caught = 0
 missed = []
+neutral = []
 for mid in sorted(r):
     e = r[mid]
+    if e.get("expect") == "hold":
+        for prop, res in sorted(e["results"].items()):
+            neutral.append((mid, prop, res.get("rc"), res.get("wall_s"), e["desc"]))
+        continue
     for prop, res in sorted(e["results"].items()):
         tot += 1
         caught += bool(res["fired"])
@@ -23,5 +28,11 @@ for mid in sorted(r):
 lines += ["", "%d of %d (change, check) pairs fired." % (caught, tot), ""]
 if missed:
     lines.append("Not fired: " + ", ".join("%s/%s" % (m, p) for m, p, _ in missed))
+lines += ["", "## Behaviour-preserving change sets (the property still holds: every check must exit 0)", "",
+          "| change set | check | exit code | s |", "|---|---|---|---|"]
+bad = [x for x in neutral if x[2] != 0]
+for mid, prop, rc, w, desc in neutral:
+    lines.append("| %s | %s | %s | %s |" % (mid, prop, "0 (held)" if rc == 0 else "**%s**" % rc, w))
+lines += ["", "%d of %d (change set, check) pairs stayed silent." % (len(neutral) - len(bad), len(neutral)), ""]
 open(os.path.join(here, "RESULTS.md"), "w").write("\n".join(lines) + "\n")
-print("%d/%d fired; missed: %s" % (caught, tot, missed))
+print("%d/%d fired; missed: %s; neutral alarms: %s" % (caught, tot, missed, [(m, p, rc) for m, p, rc, _, _ in neutral if rc != 0]))
